@@ -161,12 +161,18 @@ func preamble(ref []byte, size int) []byte {
 }
 
 // ctlFrames: the byte frames of a well-formed control session (handshake first).
-func ctlFrames(rng *rand.Rand) [][]byte {
+// adm: the session logs in with the all-privileges account and aims its disconnect request at a user ID nobody has
+// (a privileged hostile client must not hurt the well-behaved ones either; kicking a sentinel would be legitimate).
+func ctlFrames(rng *rand.Rand, adm bool) [][]byte {
 	id := uint32(10)
+	login, pw, victim := "guest", []byte(nil), 1
+	if adm {
+		login, pw, victim = "admin", sim.Obfuscate([]byte("admin")), 0x7777
+	}
 	tx := func(typ int, f ...sim.F) []byte { id++; return sim.NewTx(typ, id, f...).Encode() }
 	fr := [][]byte{
 		sim.HandshakeBytes,
-		tx(sim.TLogin, sim.Fld(sim.FUserLogin, sim.Obfuscate([]byte("guest"))), sim.Fld(sim.FUserPassword, nil), sim.Fld(sim.FVersion, sim.U16(190))),
+		tx(sim.TLogin, sim.Fld(sim.FUserLogin, sim.Obfuscate([]byte(login))), sim.Fld(sim.FUserPassword, pw), sim.Fld(sim.FVersion, sim.U16(190))),
 		tx(sim.TAgreed, sim.Fld(sim.FUserName, []byte("mallory")), sim.Fld(sim.FUserIconID, sim.U16(2)), sim.Fld(sim.FOptions, sim.U16(0))),
 		tx(sim.TGetUserNameList),
 		tx(sim.TChatSend, sim.Fld(sim.FData, []byte("hi there"))),
@@ -185,7 +191,7 @@ func ctlFrames(rng *rand.Rand) [][]byte {
 		tx(sim.TUploadFile, sim.Fld(sim.FFileName, []byte(fmt.Sprintf("up-%d.txt", rng.Int63()))), sim.Fld(sim.FFilePath, sim.EncPath("Uploads")), sim.Fld(sim.FTransferSize, sim.U32(100))),
 		tx(sim.TDownloadFldr, sim.Fld(sim.FFileName, []byte("dir"))),
 		tx(sim.TGetClientInfoText, sim.Fld(sim.FUserID, sim.U16(1))),
-		tx(sim.TDisconnectUser, sim.Fld(sim.FUserID, sim.U16(1))),
+		tx(sim.TDisconnectUser, sim.Fld(sim.FUserID, sim.U16(victim))),
 		tx(sim.TUpdateUser, sim.Fld(sim.FData, []byte{0, 1, 0, 101, 0, 2, 0x9e, 0x9e})),
 		tx(sim.TJoinChat, sim.Fld(sim.FChatID, []byte{1, 2, 3, 4})),
 		tx(sim.TKeepAlive),
@@ -296,14 +302,14 @@ func hostile(p plan, n int, port, tport int, rng *rand.Rand, hs *hostileStats) {
 			}
 		}
 		hs.hold(t.c)
-	case "ctl", "prelogin":
+	case "ctl", "adm", "prelogin":
 		c, err := dialFrom(src, port)
 		if err != nil {
 			atomic.AddInt64(&hs.failedDial, 1)
 			return
 		}
 		defer c.Close()
-		fr := ctlFrames(rng)
+		fr := ctlFrames(rng, p.Sess == "adm")
 		k := p.Frame - 1
 		if p.Sess == "prelogin" {
 			k = p.Frame % 2 // handshake or login frame
@@ -478,7 +484,7 @@ func runParent(args []string) error {
 	}
 	rng := rand.New(rand.NewSource(*seed))
 	muts := []string{"trunc", "total", "datasz", "count", "flen", "dropfield", "shortid", "garbage", "badhs", "size", "dup"}
-	sess := []string{"ctl", "ctl", "ctl", "prelogin", "upload", "download", "fupload", "fdownload"}
+	sess := []string{"ctl", "ctl", "adm", "adm", "prelogin", "upload", "download", "fupload", "fdownload"}
 	plans = append([]plan{{Sess: "nonreader", Mut: "none", Val: 0}, {Sess: "nonreader", Mut: "none", Val: 1}}, plans...)
 	for i := 0; i < *fuzz; i++ {
 		plans = append(plans, plan{Sess: sess[rng.Intn(len(sess))], Frame: 1 + rng.Intn(24), Mut: muts[rng.Intn(len(muts))], Val: rng.Intn(9)})
